@@ -219,7 +219,19 @@ func (e *Engine) builtin(s *State, fr *Frame, name string, args []Value, res ssa
 			if x.Nil {
 				set(MkI(0))
 			} else {
-				set(MkI(int64(len(s.load(&Ptr{Obj: x.Obj}).(*MapObj).E))))
+				mo := s.load(&Ptr{Obj: x.Obj}).(*MapObj)
+				if mo.Open {
+					throwf("len of a map with arbitrary content")
+				}
+				n := MkI(0)
+				for _, en := range mo.E {
+					if en.Present == nil {
+						n = Add(n, MkI(1))
+					} else {
+						n = Add(n, Ite(en.Present, MkI(1), MkI(0)))
+					}
+				}
+				set(n)
 			}
 		case *ArrayV:
 			set(MkI(int64(len(x.E))))
@@ -285,8 +297,15 @@ func (e *Engine) builtin(s *State, fr *Frame, name string, args []Value, res ssa
 			ii := i
 			outs = append(outs, Outcome{Cond: And(miss, eq), Do: func(st *State) {
 				cur := st.load(&Ptr{Obj: m.Obj}).(*MapObj)
-				ne := append(append([]MapEntry(nil), cur.E[:ii]...), cur.E[ii+1:]...)
-				st.hset(m.Obj, &MapObj{ne})
+				var ne []MapEntry
+				if cur.Open {
+					// keep a tombstone: the unknown base content must not shine through again
+					ne = append([]MapEntry(nil), cur.E...)
+					ne[ii] = MapEntry{cur.E[ii].K, cur.E[ii].V, TFalse}
+				} else {
+					ne = append(append([]MapEntry(nil), cur.E[:ii]...), cur.E[ii+1:]...)
+				}
+				st.hset(m.Obj, &MapObj{E: ne, Open: cur.Open, Tag: cur.Tag, Src: cur.Src})
 			}})
 			miss = And(miss, Not(eq))
 			if eq == TTrue {
@@ -294,7 +313,14 @@ func (e *Engine) builtin(s *State, fr *Frame, name string, args []Value, res ssa
 			}
 		}
 		if miss != TFalse {
-			outs = append(outs, Outcome{Cond: miss})
+			key := args[1]
+			outs = append(outs, Outcome{Cond: miss, Do: func(st *State) {
+				cur := st.load(&Ptr{Obj: m.Obj}).(*MapObj)
+				if cur.Open {
+					ne := append(append([]MapEntry(nil), cur.E...), MapEntry{key, nil, TFalse})
+					st.hset(m.Obj, &MapObj{E: ne, Open: true, Tag: cur.Tag, Src: cur.Src})
+				}
+			}})
 		}
 		return e.applyOutcomes(s, fr, nil, outs)
 	case "print", "println":
